@@ -202,9 +202,15 @@ class AtomicEngine(Engine):
             # victim = a real refactoring on a small multi-module program
             init = gen.gen_program(rng, swarm)
             files = [e["p"] for e in init if not e.get("dir") and e["p"].endswith(".py")]
-            if rng.random() < 0.35:
-                rf = {"kind": "rename_module", "path": rng.choice([f for f in files if not f.endswith("__init__.py")]),
-                      "new": rng.choice(gen.NEW_IDENTS) + "9", "id": 1}
+            mods = [f for f in files if not f.endswith("__init__.py")]
+            pkgs = sorted({f.rsplit("/", 1)[0] for f in files if f.endswith("/__init__.py")})
+            r = rng.random()
+            if r < 0.25:
+                rf = {"kind": "rename_module", "path": rng.choice(mods), "new": rng.choice(gen.NEW_IDENTS) + "9", "id": 1}
+            elif r < 0.4 and pkgs:
+                rf = {"kind": "move_module", "path": rng.choice(mods), "dest": rng.choice(pkgs), "id": 1}
+            elif r < 0.5:
+                rf = {"kind": "to_package", "path": rng.choice(mods), "id": 1}
             else:
                 rf = {"kind": "rename", "path": rng.choice(files), "ident": rng.choice(gen.PROGRAM_IDENTS[:12]),
                       "occ": rng.randrange(3), "new": rng.choice(gen.NEW_IDENTS) + "9", "id": 1, "docs": False}
